@@ -19,6 +19,9 @@ ASSUMPTIONS = ['CPython str semantics', 'the model driver is the compiled form o
                'groups is read as a further argument: documented brace-bracket-brace order, outside this domain)',
                'attaching separators: blanks with at most one line break; detaching: blank line, punctuation, '
                'comment, \\\\']
+LEAN_TARGETS = LEAN_TARGETS + ['TexSoupProofs.Properties.TableSpec']
+# entries of the generated tables that the property's statement names (they stop compiling when a table edit drops them)
+THEOREMS = THEOREMS + ['TexSoup.TableSpec.' + n for n in ['starred_names_are_open', 'ordinary_names_are_open', 'spacer_chars', 'end_of_line_chars']]
 
 _CACHE = {}
 
@@ -27,7 +30,11 @@ DETACH = G.DETACH
 SEPS_FULL = ATTACH + DETACH
 SEPS_RED = ('', ' ', '\n', ' \n\t', '\n\n', '.', '%c\n')
 SEPS_RED5 = ('', ' ', '\n', '\n\n', '.')
-NAMES = ('zq', 'zq*', 'Zq', 'q', 'zqlongname', 'includegraphicszq')
+# outside the fixed-signature table: ordinary names, and the neighbours of the table's names (starred, extended, cut,
+# re-cased) and of \item/\begin/\end - all of them take the whole run
+NAMES = ('zq', 'zq*', 'Zq', 'q', 'zqlongname', 'includegraphicszq',
+         'section*', 'textbf*', 'label*', 'def*', 'in*', 'cup*', 'infty*', 'sections', 'Section', 'textb', 'labelx',
+         'inf', 'cups', 'notinx', 'items', 'itemsep', 'endnote', 'begins', 'text', 'verbatim', 'noindent*')
 
 # (body, [its top-level non-text elements])
 BRACKET_BODIES = (('a', []), ('', []), ('a{]}b', ['{]}']), ('{[}', ['{[}']), ('\\y{q}', ['\\y{q}']), ('a b', []),
